@@ -14,7 +14,7 @@ RULE = ('Generated analytic families (Gaussian, Yukawa, exponential, sphere indi
         'its setters after an earlier transform); each case is a refinement family dr, dr/2, dr/4 at fixed '
         'r_max (the 32 lowest k and 32 fixed r are shared by the family). Forward and backward transforms are judged separately against '
         'the closed-form 3-D pair (forward 4 pi, backward 1/(2 pi^2)): (i) error <= C*(dr/w)*scale, (ii) error ratio per halving in '
-        '[0.4,0.6] (backward [0.4,0.65]), (iii) Richardson value 2X(dr/4)-X(dr/2) within C2*(dr/2w)^2*scale of exact, (iv) F(k_min) '
+        '<= 0.6 (backward <= 0.65; faster convergence is not an error), (iii) Richardson value 2X(dr/4)-X(dr/2) within C2*(dr/2w)^2*scale of exact, (iv) F(k_min) '
         'within O(dr)+O(k_min^2) of the volume integral. All families are non-trivial by construction; distinct = spec hash.')
 ASSUMPTIONS = ['constants C, C2 are calibrated >= 3x above the worst value observed over the generator range (forward 0.72 / 0.125, '
                'backward 0.54 / 0.48; sphere backward 0.98) and reported in the evidence',
@@ -123,7 +123,7 @@ class Refinement(Sub):
                 if errs[lev - 1] < 100 * floor:
                     continue
                 ratio = errs[lev] / errs[lev - 1]
-                lo = 0.4 if smooth else 0.0
+                lo = 0.0       # an error that shrinks faster than first order still satisfies the statement
                 hi = ratio_hi if smooth else 0.98
                 if not (lo <= ratio <= hi):
                     out.fail(tag + 'error-does-not-halve', '%s %s: error ratio %.3f when dr is halved (errors %s), expected %.2f..%.2f' % (
